@@ -25,6 +25,7 @@ inductive Op
   | residue
   | proj (values : Bool) (i : Nat) (r : Res)
   | all (r : Res)
+  | query          -- observe every projection in its present state (no effect)
   deriving Repr, Inhabited
 
 def sName : Bytes := Bytes.ofString ".name"
@@ -153,6 +154,7 @@ def observations (ops : List Op) (ps : List PSpec) (i : Nat) : List Obs :=
     | .residue => (acc, np + 1)
     | .proj v j r => (if j == i && i < np then acc ++ expand v r else acc, np)
     | .all r => (if i < np then acc ++ expand isUnit r else acc, np)
+    | .query => st
   (ops.foldl step ([], 0)).1
 
 def columns (specific : List Bytes) (p : PSpec) (obs : List Obs) : List Col :=
